@@ -458,6 +458,71 @@ def reply_at_deadline_cases():
     return out
 
 
+def client_connect_cases(thorough, rng):
+    """SSHClient.connect against honest servers that present a host key of each type, with every shape of
+    known_hosts content for that host (nothing, the same key, another key of that type, only keys of other
+    types, both), stored as system or user host keys, standard and non-standard port, each missing-key policy.
+    Which key type the server presents is the peer's choice.  Returns [(case, exception or None)]."""
+    import warnings
+
+    from paramiko import (AutoAddPolicy, ECDSAKey, Ed25519Key, RejectPolicy, RSAKey, SSHClient, Transport,
+                          WarningPolicy)
+
+    served = {"rsa": lib_net.hostkey(),
+              "ecdsa": ECDSAKey.from_private_key_file(lib_net.support("ecdsa-256.key")),
+              "ed25519": Ed25519Key.from_private_key_file(lib_net.support("ed25519.key"))}
+    other = {"rsa": RSAKey.generate(1024), "ecdsa": ECDSAKey.generate()}
+    shapes = []
+    for s in served:
+        shapes.append((s, ()))
+        shapes.append((s, ((s, "same"),)))
+        if s in other:
+            shapes.append((s, ((s, "other"),)))
+        for t in served:
+            if t != s:
+                shapes.append((s, ((t, "same"),)))
+                shapes.append((s, ((t, "same"), (s, "same"))))
+                if s in other:
+                    shapes.append((s, ((t, "same"), (s, "other"))))
+    jobs = []
+    for s, known in shapes:
+        for pol in (RejectPolicy, AutoAddPolicy, WarningPolicy):
+            for store in ("system", "user"):
+                for port in (22, 2222):
+                    essential = known and all(t != s for t, _ in known)  # only other key types on record
+                    if thorough or essential or rng.random() < 0.34:
+                        jobs.append((s, known, pol, store, port))
+
+    def one(job):
+        s, known, pol, store, port = job
+        sc, ss = lib_net.GateSock.pair()
+        ts = Transport(ss)
+        ts.add_server_key(served[s])
+        ts.start_server(threading.Event(), lib_net.BasicServer())
+        c = SSHClient()
+        c.set_missing_host_key_policy(pol())
+        name = "host.example" if port == 22 else "[host.example]:%d" % port
+        hk = c._system_host_keys if store == "system" else c._host_keys
+        for t, which in known:
+            k = served[t] if which == "same" else other[t]
+            hk.add(name, k.get_name(), k)
+        err = None
+        try:
+            with warnings.catch_warnings():
+                warnings.simplefilter("ignore")
+                c.connect("host.example", port=port, username="u", password="pw", sock=sc, allow_agent=False,
+                          look_for_keys=False, timeout=10, banner_timeout=10, auth_timeout=10)
+        except BaseException as e:  # noqa
+            err = e
+        finally:
+            c.close()
+            ts.close()
+        return ("%s|%s|%s|%s|%d" % (s, ",".join("%s-%s" % k for k in known) or "nothing", pol.__name__, store, port), err)
+
+    with ThreadPoolExecutor(max_workers=12) as ex:
+        return list(ex.map(one, jobs))
+
+
 def gss_cases():
     """GSS-API authentication with a stub mechanism whose calls fail on peer-supplied tokens (no GSS library is
     installed; the stub's failure class stands for the library's GSSException).  Returns [(victim, where, exc)]."""
@@ -604,7 +669,19 @@ def run(ctx):
                          {"scenario": "open_session(timeout) gives up while the peer's answer (%s) is being handled" % label},
                          "%s handed the application %r" % (where, e))
 
+    # ---- (a3) SSHClient.connect: the server's choice of host key type x what known_hosts holds for the host
+    for label, err in client_connect_cases(ctx.thorough, ctx.rng):
+        served_t, known, pol, store, port = label.split("|")
+        ctx.case(("client-connect", served_t, known, pol, type(err).__name__), err is not None)
+        ctx.dist("client-connect:" + (classify(err) if err is not None else "connected"))
+        if err is not None and not isinstance(err, (_SSHE, EOFError, OSError)):
+            ctx.fail("internal-class-surfaced:SSHClient.connect:%s" % type(err).__name__,
+                     {"scenario": "SSHClient.connect to an honest server", "server_host_key_type": served_t,
+                      "known_hosts_for_the_host": known, "policy": pol, "stored_as": store, "port": int(port)},
+                     "connect raised %r" % (err,))
+
     # ---- (b) structured fuzz
+
     n_idx = 14
     seeds = 3 if ctx.thorough else 1
     kexes = [None]
